@@ -37,7 +37,7 @@ func c09Clique(p vbase.Params, r *vbase.Result, async bool) {
 	}
 	r.Rule = "real VotingMachine inside a fully wired replica that is the next leader; block B (newer than its high QC) proposed by a puppet; the other replicas' genuine votes arrive in varying orders, before or after B itself " +
 		"(deferred-vote and block-fetch paths), mixed with hostile votes: duplicates, signature over another message labelled with B's hash, votes for another/unknown/stale block, multi-signer and repeated-signer partial " +
-		"certificates, BLS empty-participant/infinity signature, vote carrying another replica's signature; " + mode + "; oracle: S1 = replicas whose genuine single-signer vote arrived, S2 = replicas with a genuine " +
+		"certificates, BLS empty-participant/infinity signature, vote carrying another replica's signature, the sender's signature labelled with another replica's id (also the collector's own, which may not have voted); " + mode + "; oracle: S1 = replicas whose genuine single-signer vote arrived, S2 = replicas with a genuine " +
 		"signature over B in any arrived vote; |S1|>=q => a QC for B must have been produced; |S2|<q => none; every produced QC passes the ground-truth oracle, verifies at another replica and names only S2; " +
 		"non-trivial: >=1 hostile vote or votes before the block; distinct: (arrival order, hostile mix)"
 	cases := p.N(24000, 800000)
@@ -140,7 +140,32 @@ func c09Clique(p vbase.Params, r *vbase.Result, async bool) {
 		for k := 0; k < hostile; k++ {
 			id := hotstuff.ID(rng.Range(2, nn))
 			m := c.W.M(id)
-			switch rng.Intn(9) {
+			switch rng.Intn(11) {
+			case 9, 10: // the sender's genuine signature over B labelled with another replica's id - half of the time the collector's own
+				x := hotstuff.ID(1)
+				if rng.Bool() {
+					x = hotstuff.ID(rng.Range(1, nn))
+				}
+				if x == id {
+					break
+				}
+				own, err := m.Auth.Sign(B.ToBytes())
+				if err != nil {
+					break
+				}
+				var forged hotstuff.QuorumSignature
+				if scheme == crypto.NameBLS12 {
+					var bf crypto.Bitfield
+					bf.Add(x)
+					if rs, err := crypto.RestoreBLS12AggregateSignature(own.ToBytes(), bf); err == nil {
+						forged = rs
+					}
+				} else {
+					forged = c.sigInterleaved([]hotstuff.ID{x}, [][]byte{own.ToBytes()})
+				}
+				if forged != nil {
+					items = append(items, voteItem{From: id, Kind: fmt.Sprintf("signature-labelled-as-%d", x), PC: hotstuff.NewPartialCert(forged, B.Hash())})
+				}
 			case 0: // duplicate of an honest vote
 				if len(items) > 0 {
 					it := items[rng.Intn(len(items))]
